@@ -631,10 +631,48 @@ impl<'a> Gen<'a> {
             rules.push(json!({"n":name,"w":w,"lets":lets,"b":body}));
             names.push(name);
         }
+        // parameterised rules: one or two, called from one or two rules with query / literal arguments
+        let mut prules: Vec<J> = Vec::new();
+        if self.cfg.pcalls && self.r.chance(1, 3) {
+            let np = 1 + self.r.below(2);
+            for k in 0..np {
+                let name = format!("pf{}", k + 1);
+                let nparams = 1 + self.r.below(2);
+                let ps: Vec<String> = (0..nparams).map(|x| format!("p{}", x + 1)).collect();
+                let mut pvars = vars.clone();
+                for pn in &ps {
+                    pvars.push((pn.clone(), None));
+                }
+                let body = self.cnf(cur, &pvars, &[], 1, false, false);
+                prules.push(json!({"n":name,"ps":ps,"lets":[],"b":body}));
+            }
+            let ncalls = 1 + self.r.below(2);
+            for _ in 0..ncalls {
+                let ri = self.r.below(rules.len());
+                let pi = self.r.below(prules.len());
+                let nparams = prules[pi]["ps"].as_array().unwrap().len();
+                let mut args = Vec::new();
+                for _ in 0..nparams {
+                    if self.r.chance(1, 4) {
+                        let mut v = self.scalar();
+                        if v["t"] == "flt" {
+                            v = crate::val::vint(7);
+                        }
+                        args.push(json!({"r":"val","v":v}));
+                    } else {
+                        args.push(json!({"r":"q","q":self.query(cur, &vars, 0),"all":true}));
+                    }
+                }
+                let call = json!({"c":"pcall","n":prules[pi]["n"],"a":args,"neg":self.r.chance(1,6)});
+                let body = rules[ri]["b"].as_array_mut().unwrap();
+                let at = self.r.below(body.len() + 1);
+                body.insert(at, json!([call]));
+            }
+        }
         // definition order is shuffled so that rules are referenced before and after their definition
         if self.r.chance(1, 2) {
             self.r.shuffle(&mut rules);
         }
-        json!({"lets":flets,"rules":rules,"prules":[]})
+        json!({"lets":flets,"rules":rules,"prules":prules})
     }
 }
